@@ -33,6 +33,23 @@ GETTERS = ["speech", "overview", "braille"]
 NAV = ["ZoomIn", "MoveNext", "MovePrevious", "ZoomOut", "ReadCurrent", "ZoomInAll", "MoveStart", "ToggleZoomLockUp", "SetPlacemarker1", "MoveTo1"]
 
 
+def norm_stored(v, counter):
+    """the stored expression as read through get_navigation_mathml, up to the order of the attributes; the Nemeth fraction-level memo
+    (data-nemeth-frac-level, written on the live tree by NemethNestingChars: a value that depends on the expression only) is counted, not compared"""
+    import xml.etree.ElementTree as ET
+    if not isinstance(v, list) or not v or not isinstance(v[0], str):
+        return v
+    try:
+        root = ET.fromstring(v[0])
+    except ET.ParseError:
+        return v
+    def ser(e):
+        attrs = sorted((k, x) for k, x in e.attrib.items() if k != "data-nemeth-frac-level")
+        counter["n"] += sum(1 for k in e.attrib if k == "data-nemeth-frac-level")
+        return [e.tag, attrs, (e.text or "").strip(), [ser(c) for c in e]]
+    return [ser(root)] + v[1:]
+
+
 def getters_reqs():
     return [{"op": "speech"}, {"op": "overview"}, {"op": "braille", "id": ""}]
 
@@ -155,6 +172,38 @@ def run(ctx):
         first, last = outputs(rep[3:6]), outputs(rep[-3:])
         if first != last:
             oracle_fail.append({"why": "switching a preference away and back does not restore the output", "pref": [k, a, b], "before": first, "after": last, "lines": lines})
+    # getters are queries: none of them changes the stored expression (read back through get_navigation_mathml at the root), and calling
+    # them again, in another order, gives the same answers -- in every language, on expressions with intent attributes too
+    PURE = CACHE_SENSITIVE + ["<math><mrow><mn>5</mn><mi intent=':unit'>km</mi><mo>+</mo><mn>3</mn><mi mathvariant='normal' intent=':unit'>m</mi></mrow></math>",
+                              "<math><mrow intent=':prefix'><mi>f</mi><mi intent=':silent'>x</mi></mrow></math>", "<math><msup intent='power($a,$b)'><mi arg='a'>x</mi><mn arg='b'>2</mn></msup></math>",
+                              "<math><mrow><mi intent=':chemical-element'>Na</mi><mo>+</mo><mi intent='foo:bar'>y</mi></mrow></math>"]
+    n_pure = 0
+    cache_attr = {"n": 0}
+    for lang in (PREF_CHOICES["Language"][:8] if ctx.tier == "quick" else PREF_CHOICES["Language"]):
+        for e in PURE:
+            seq = [{"op": "overview"}, {"op": "speech"}, {"op": "braille", "id": ""}, {"op": "intent_tree"}, {"op": "nav", "cmd": "ReadCurrent"}, {"op": "overview"}, {"op": "speech"}, {"op": "braille", "id": ""}]
+            lines = core.prelude([{"op": "set_pref", "name": "Language", "value": lang}, {"op": "set_mathml", "xml": e}, {"op": "nav_mathml"}])
+            for q in seq:
+                lines += [q, {"op": "nav_mathml"}]
+            rep = im.run([{"op": "session"}] + lines)[1:]
+            n_pure += 1
+            n_calls += len(lines)
+            base_i = len(lines) - 2 * len(seq) - 1
+            if rep[base_i - 1].get("r") != "ok" or rep[base_i].get("r") != "ok":
+                continue
+            stored0 = norm_stored(rep[base_i].get("v"), cache_attr)
+            answers = {}
+            for k, q in enumerate(seq):
+                r, after = rep[base_i + 1 + 2 * k], rep[base_i + 2 + 2 * k]
+                if after.get("r") == "ok" and norm_stored(after.get("v"), cache_attr) != stored0:
+                    oracle_fail.append({"why": "a getter changed the stored expression", "call": q, "Language": lang, "before": stored0, "after": after.get("v"), "lines": lines[:base_i + 3 + 2 * k]})
+                    break
+                key = json.dumps(q)
+                o = outputs([r])[0]
+                if key in answers and answers[key] != o:
+                    oracle_fail.append({"why": "the same getter answers differently when called again", "call": q, "Language": lang, "first": answers[key], "again": o, "lines": lines})
+                    break
+                answers.setdefault(key, o)
     # file-read prediction (hooks H2 + H6) along random histories without file changes
     needs_full = {}
     SLOT = {"speech": "speech", "braille": "braille"}
@@ -248,6 +297,7 @@ def run(ctx):
     im.close()
     mo.close()
     ctx.coverage.update({
+        "pure_query_sequences": n_pure, "observation_fraction_level_memo_attributes_seen_on_the_stored_tree": cache_attr["n"],
         "evaluations": n_calls, "distinct_nontrivial": n_hist,
         "rule": "random histories (2-11 steps of set_preference over 10 preferences, set_mathml, getters, navigation) followed by a target preference assignment, an expression and the getters in "
                 "random order with one repeated, compared with a fresh session; preference round trips on a fixed expression; file-read prediction along histories (hooks H2 + H6); two sessions "
